@@ -218,7 +218,7 @@ def _floyd(prog, rep):
     rep.ob('T.transforms', f, '; '.join(sorted(tr)), tr == {'-np.log(%s)' % A, '1 / %s' % A}, "transforms must be -log(w) and 1/w (absent connections map to inf by themselves)", line=f.node.lineno)
     if len(kl) == 1:
         b = [norm(s) for s in kl[0].body]
-        okk = 'i2k_k2j = np.repeat(SPL[:, [k]], n, 1) + np.repeat(SPL[[k], :], n, 0)' in b and cn('path = SPL > i2k_k2j') in b and cn('SPL = np.min(np.stack([SPL, i2k_k2j], 2), 2)') in b \
+        okk = cn('i2k_k2j = np.repeat(SPL[:, [k]], n, 1) + np.repeat(SPL[[k], :], n, 0)') in b and cn('path = SPL > i2k_k2j') in b and cn('SPL = np.min(np.stack([SPL, i2k_k2j], 2), 2)') in b \
             and b.index(cn('path = SPL > i2k_k2j')) < b.index(cn('SPL = np.min(np.stack([SPL, i2k_k2j], 2), 2)'))
         rep.ob('K.floyd-strict-improvement-then-minimum', f, '; '.join(b)[:160], okk,
                'for every k: candidate = SPL[i,k] + SPL[k,j]; pairs with a strictly shorter candidate are recorded from the *old* SPL, then SPL takes the minimum', line=kl[0].lineno)
